@@ -792,6 +792,8 @@ impl Version {
     fn max_bytes_for_level(level: usize) -> f64 {
         // The threshold is calculated as 10x multiples of 1 MiB.
         let starting_multiple_bytes: f64 = 1. * 1024. * 1024.;
+        #[cfg(feature = "verif_hooks")]
+        let starting_multiple_bytes: f64 = crate::verif::level_base_bytes(starting_multiple_bytes);
         let mut level = level;
         let mut result: f64 = 10. * starting_multiple_bytes;
         while level > 1 {
